@@ -24,8 +24,8 @@ fn enc_tree_text(t: &str) -> Vec<usize> {
         let a: usize = toks[i + 1].parse().unwrap_or(0);
         let b: usize = toks[i + 2].parse().unwrap_or(0);
         match toks[i] {
-            "L" => out.extend([0, a, b]),
-            "F" => out.extend([0, a, FAULTY + b]),
+            "L" | "Y" => out.extend([0, a, b]),
+            "F" | "X" => out.extend([0, a, FAULTY + b]),
             _ => out.extend([1, a, b]),
         }
         i += 3;
@@ -76,7 +76,7 @@ pub fn emit(out: &mut Out, worker: &mut Worker, text: &str, rng: &mut Rng, thoro
     let id = out.id();
     // token costs: mostly small so that the reference search (cost cap) decides many cases
     let mode = rng.below(4);
-    let costs: Vec<u8> = if let Some(c) = costs_in { (0..nt).map(|i| *c.get(i).unwrap_or(&1)).collect() } else if let Some((_, c)) = fixed { vec![c; nt] } else { (0..nt).map(|_| match mode { 0 => 1, 1 => *rng.pick(&[1u8, 1, 2]), 2 => *rng.pick(&[1u8, 2, 3]), _ => *rng.pick(&[1u8, 1, 2, 9, 200]) }).collect() };
+    let costs: Vec<u8> = if let Some(c) = costs_in { (0..nt).map(|i| *c.get(i).unwrap_or(&1)).collect() } else if let Some((_, c)) = fixed { vec![c; nt] } else { (0..nt).map(|_| match mode { 0 => 1, 1 => *rng.pick(&[1u8, 1, 2]), 2 => *rng.pick(&[1u8, 2, 3]), _ => *rng.pick(&[1u8, 1, 2, 9, 200, 255]) }).collect() };
     let avoid: Vec<usize> = g.iter_tidxs().map(|t| if g.avoid_insert(t) { 1 } else { 0 }).collect();
     // inputs: near-sentences (1-3 edits), a few random strings
     let sm = Sampler::new(&g);
@@ -142,6 +142,17 @@ pub fn emit(out: &mut Out, worker: &mut Worker, text: &str, rng: &mut Rng, thoro
                     Some(t) => {
                         body.push(1);
                         body.extend(enc_tree_text(t));
+                        // inserted lexemes are zero-length, real ones keep their extent
+                        let tk: Vec<&str> = t.split(' ').collect();
+                        if let Some(i) = tk.iter().position(|x| *x == "X" || *x == "Y") {
+                            hfail.get_or_insert(format!(
+                                "leaf-extent: the returned tree has {} lexeme of token {} at {} whose length is not {} on {:?}",
+                                if tk[i] == "X" { "an inserted" } else { "a real" },
+                                tk.get(i + 1).unwrap_or(&"?"),
+                                tk.get(i + 2).unwrap_or(&"?"),
+                                if tk[i] == "X" { "zero" } else { "the lexeme's" },
+                                w));
+                        }
                     }
                     None => body.push(0),
                 }
@@ -332,7 +343,8 @@ fn alt_family(rng: &mut Rng) -> (String, Vec<Vec<u32>>) {
     avoid.sort();
     avoid.dedup();
     let name = |t: u32| match t { 0 => "'a'".to_string(), 1 => "'d'".to_string(), 2 => "'k'".to_string(), n => format!("'x{}'", n) };
-    let mut text = String::from("%start S\n");
+    // `%avoid_insert` declares the tokens it names: fix the numbering with a `%token` line first
+    let mut text = format!("%start S\n%token {}\n", (0..next).map(name).collect::<Vec<_>>().join(" "));
     if !avoid.is_empty() {
         text.push_str(&format!("%avoid_insert {}\n", avoid.iter().map(|t| name(*t)).collect::<Vec<_>>().join(" ")));
     }
@@ -423,6 +435,66 @@ fn prec_family(rng: &mut Rng) -> (String, Vec<Vec<u32>>, Vec<u8>) {
     inputs.truncate(12);
     let mode = rng.below(3);
     let costs: Vec<u8> = (0..ntoks + 1).map(|_| match mode { 0 => 1, 1 => *rng.pick(&[1u8, 1, 2]), _ => *rng.pick(&[1u8, 2, 3]) }).collect();
+    (text, inputs, costs)
+}
+
+/// alternatives of DIFFERENT lengths whose token costs make them equally expensive: `S: 'a' X 'd' 'k'…;
+/// X: 'x3' | 'x4' 'x5' | 'x6' 'x7' 'x8'` with costs 6 | 3 3 | 2 2 2 (or 255 | 85 85 85): when the body
+/// of X is missing every alternative is a minimum-cost repair, the sequences have different lengths, and
+/// some alternatives contain an avoided token — "avoided after all others" and "shorter first within a
+/// group" pull in different directions, and a cost of exactly 255 is the largest a token can have
+fn uneven_alt_family(rng: &mut Rng) -> (String, Vec<Vec<u32>>, Vec<u8>) {
+    let big = rng.chance(1, 3);
+    let lens: Vec<usize> = if big { vec![1, 3] } else if rng.chance(1, 2) { vec![1, 2, 3] } else { vec![2, 3, 1] };
+    let total: usize = if big { 255 } else { 6 };
+    let tail = rng.range(1, 3);
+    let mut next = 3u32;
+    let mut alts: Vec<Vec<u32>> = Vec::new();
+    let mut costs: Vec<u8> = vec![1, 1, 1];
+    for l in &lens {
+        alts.push((0..*l).map(|_| { next += 1; next - 1 }).collect());
+        for _ in 0..*l {
+            costs.push((total / l) as u8);
+        }
+    }
+    costs.push(1); // end of input
+    // avoid a token of the shortest alternative, sometimes also of another one
+    let shortest = (0..alts.len()).min_by_key(|i| alts[*i].len()).unwrap();
+    let mut avoid: Vec<u32> = vec![alts[shortest][0]];
+    if rng.chance(1, 3) {
+        let o = (shortest + 1) % alts.len();
+        avoid.push(*alts[o].last().unwrap());
+    }
+    if rng.chance(1, 4) {
+        avoid.clear();
+    }
+    avoid.sort();
+    let name = |t: u32| match t { 0 => "'a'".to_string(), 1 => "'d'".to_string(), 2 => "'k'".to_string(), n => format!("'x{}'", n) };
+    // `%avoid_insert` declares the tokens it names: fix the numbering with a `%token` line first
+    let mut text = format!("%start S\n%token {}\n", (0..next).map(name).collect::<Vec<_>>().join(" "));
+    if !avoid.is_empty() {
+        text.push_str(&format!("%avoid_insert {}\n", avoid.iter().map(|t| name(*t)).collect::<Vec<_>>().join(" ")));
+    }
+    text.push_str("%%\n");
+    text.push_str(&format!("S: 'a' X 'd'{};\n", " 'k'".repeat(tail)));
+    text.push_str(&format!("X: {};\n", alts.iter().map(|a| a.iter().map(|t| name(*t)).collect::<Vec<_>>().join(" ")).collect::<Vec<_>>().join(" | ")));
+    let mut tailv = vec![1u32];
+    tailv.extend(std::iter::repeat(2).take(tail));
+    let mut inputs = Vec::new();
+    let mut w = vec![0u32];
+    w.extend(&tailv);
+    inputs.push(w);
+    // a foreign token in place of the body (Delete + the Inserts), and part of a long alternative present
+    let mut w = vec![0u32, 2];
+    w.extend(&tailv);
+    inputs.push(w);
+    for a in &alts {
+        if a.len() >= 2 {
+            let mut w = vec![0u32, a[0]];
+            w.extend(&tailv);
+            inputs.push(w);
+        }
+    }
     (text, inputs, costs)
 }
 
@@ -541,6 +613,12 @@ pub fn run_prop(a: &Args, prop: &str, pnum: u64) {
             let (t, ws) = alt_family(&mut rng);
             let refs: Vec<&[u32]> = ws.iter().map(|w| &w[..]).collect();
             emit(&mut out, &mut worker, &t, &mut rng, a.thorough, "alt_family", prop, Some((&refs, 1)), None);
+            continue;
+        }
+        if case % 16 == 2 {
+            let (t, ws, costs) = uneven_alt_family(&mut rng);
+            let refs: Vec<&[u32]> = ws.iter().map(|w| &w[..]).collect();
+            emit(&mut out, &mut worker, &t, &mut rng, a.thorough, "uneven_alt_family", prop, Some((&refs, 1)), Some(costs));
             continue;
         }
         if case % 8 == 6 {
